@@ -472,7 +472,7 @@ def attributable(prop, script, diffs):
     if prop == "C08":
         return csi("@PLMST")
     if prop == "C09":
-        return csi("m", "") and tag in ("PEN", "GRID", "ROW", "SROW", "FMT", "OBS", "OATTR", "")
+        return csi("m", "")
     if prop == "C10":
         return csi("hl", "?") or (cls is not None and cls[0] == "esc" and cls[1] == "" and cls[2] in "=>")
     if prop == "C11":
@@ -491,7 +491,7 @@ def attributable(prop, script, diffs):
 
 # --------------------------------------------------------------------------- main check
 
-DET_FAMILIES = {"table": 44832, "exh": 1213568, "opx": 885120}   # sizes of the deterministic enumerations (gen prints them)
+DET_FAMILIES = {"table": 44928, "exh": 1213568, "opx": 885120}   # sizes of the deterministic enumerations (gen prints them)
 DET_STRIDE = 104729                                                # prime, coprime to all three sizes
 
 
